@@ -9,7 +9,7 @@ R4 the header object that is edited is private to the call (no module-level / ca
 """
 import ast
 
-from sa import sym
+from sa import sym, boolalg
 from sa.sym import show, num, num_value, atoms_of
 from sa.model import dotted, own_calls, own_nodes
 
@@ -148,17 +148,23 @@ def _r2(run):
         r = ev.run(f.node)
         calls = [e for e in r.events if e.kind == "call" and e.term[1] == ("sym", "_flip_wcs_parity")]
         st = [e for e in r.events if e.kind == "store" and e.term[1][0] == ("attr", ("sym", "self"), wcs_attr)]
-        ok = len(calls) == 1 and tuple(calls[0].term[2]) == (("attr", ("sym", "self"), wcs_attr), ("attr", ("sym", "self"), "height")) and st and st[0].term[1][1] == calls[0].term
+        slf = ("sym", "self")
+        rows = {("attr", slf, "height"), ("item", ("attr", slf, "shape"), 0), ("item", ("attr", ("call", ("attr", slf, "asarray"), (), ()), "shape"), 0)}
+        cols = {("attr", slf, "width"), ("item", ("attr", slf, "shape"), 1), ("item", ("attr", ("call", ("attr", slf, "asarray"), (), ()), "shape"), 1)}
+        b = (ev.bound_args(calls[0].term)[1] or {}) if calls else {}
+        gp = project.fn(IMG + "._flip_wcs_parity").params()
+        a_wcs, a_h = b.get(gp[0]), b.get(gp[1])
+        ok = len(calls) == 1 and a_wcs in (("attr", slf, wcs_attr), ("attr", slf, "wcs"), ("attr", slf, "_wcs")) and a_h in rows and st and st[-1].term[1][1] == calls[0].term
         if ok:
-            run.holds("C16.R2", f, calls[0].node, "%s: wcs <- _flip_wcs_parity(wcs, self.height)" % f.short)
-        elif calls and len(calls[0].term[2]) == 2 and calls[0].term[2][1] == ("attr", ("sym", "self"), "width"):
+            run.holds("C16.R2", f, calls[0].node, "%s: wcs <- _flip_wcs_parity(wcs, <number of rows>)" % f.short)
+        elif calls and a_h in cols:
             run.violated("C16.R2", f, calls[0].node, "%s reflects about the image *width*; the rows are reversed, so the reflection must use the height" % f.short, kind="width-not-height")
         else:
             run.violated("C16.R2", f, calls[0].node if calls else None, "%s does not replace its WCS by _flip_wcs_parity(<its wcs>, self.height)" % f.short, kind="flip-call")
         if "ImageDescription" not in q:
             arr = [e for e in r.events if e.kind == "store" and e.term[1][0] == ("attr", ("sym", "self"), "_array")]
             want = ("sub", ("call", ("attr", ("sym", "self"), "asarray"), (), ()), ("slice", sym.NONE, sym.NONE, num(-1)))
-            if arr and arr[0].term[1][1] == want:
+            if arr and arr[-1].term[1][1] == want:
                 run.holds("C16.R2", f, arr[0].node, "Image.flip_parity reverses the rows (axis 0) of its data")
             else:
                 got = show(arr[0].term[1][1])[:80] if arr else "nothing"
@@ -190,24 +196,28 @@ def _r3(run, ev):
     cd22 = sym.mul(sy("CDELT2"), sy("PC2_2|1.0"))
     det = sym.sub(sym.mul(cd11, cd22), sym.mul(cd12, cd21))
     rets = r.returns
-    pos = [(pc, t, n) for pc, t, n in rets if num_value(t) == 1]
-    neg = [(pc, t, n) for pc, t, n in rets if num_value(t) == -1]
-    if len(rets) != 2 or len(pos) != 1 or len(neg) != 1:
-        run.undecided("C16.R3", f, None, "parity sign does not have the two returns +1 / -1", kind="sign-shape")
+    folded = boolalg.fold_returns(rets) if rets and not any(c[0] == "loop" for pc, t, n in rets for c in pc) else None
+    sign_cond = None
+    if folded is not None and folded[0] == "ite" and num_value(folded[2]) == 1 and num_value(folded[3]) == -1:
+        sign_cond = (folded[1], True)
+    elif folded is not None and folded[0] == "ite" and num_value(folded[2]) == -1 and num_value(folded[3]) == 1:
+        sign_cond = (folded[1], False)
+    pos = [(pc, t, n) for pc, t, n in rets]
+    if sign_cond is None:
+        run.undecided("C16.R3", f, None, "parity sign is not `+1 if <test> else -1` (got %s)" % (show(folded)[:100] if folded is not None else "?"), kind="sign-shape")
     else:
-        conds = [c for c in pos[0][0] if c[0] != "loop"]
-        c = conds[-1] if conds else None
+        c = sign_cond
         ok = False
         gotdet = None
-        if c is not None and c[0][0] == "op" and c[0][1] in ("cmp:Lt", "cmp:Gt"):
+        if c is not None and c[0][0] == "op" and c[0][1] in ("cmp:Lt",):
             a, b = c[0][2]
-            lt = (c[0][1] == "cmp:Lt") == c[1]
+            lt = c[1]
             if num_value(b) == 0:
-                gotdet = _renorm(_canon_header_terms(a, h))
+                gotdet = _renorm(_canon_header_terms(a, h))          # a < 0
                 ok = lt and gotdet == det
             elif num_value(a) == 0:
-                gotdet = _renorm(_canon_header_terms(b, h))
-                ok = (not lt) and gotdet == det
+                gotdet = _renorm(sym.neg(_canon_header_terms(b, h)))  # 0 < b  <=>  -b < 0
+                ok = lt and gotdet == det
         if ok:
             run.holds("C16.R3", f, pos[0][2], "parity sign +1 iff CD1_1*CD2_2 - CD1_2*CD2_1 < 0 with CDi_j = CDELTi*PCi_j")
         elif gotdet is not None and gotdet != det:
@@ -220,8 +230,8 @@ def _r3(run, ev):
         run.note_func(g)
         rg = sym.make_evaluator(project, IMG, []).run(g.node)
         fl = [e for e in rg.events if e.kind == "call" and e.term[1] == ("attr", ("sym", "self"), "flip_parity")]
-        want = (sym.cmp("Eq", ("call", ("attr", ("sym", "self"), "get_parity_sign"), (), ()), num(1)), True)
-        if len(fl) == 1 and [c for c in fl[0].pc if c[0] != "loop"] == [want]:
+        want = sym.cmp("Eq", ("call", ("attr", ("sym", "self"), "get_parity_sign"), (), ()), num(1))
+        if len(fl) == 1 and boolalg.equiv(boolalg.conj(fl[0].pc), want) is True:
             run.holds("C16.R3", g, fl[0].node, "%s flips iff get_parity_sign() == 1 (idempotent, result -1)" % g.short)
         else:
             conds = [[("" if p else "not ") + show(c)[:60] for c, p in e.pc if c[0] != "loop"] for e in fl]
